@@ -52,6 +52,11 @@ class MoveAxisOperator(AbstractLinearOperator):
             destination = (destination,)
         elif not isinstance(destination, tuple):
             destination = cast(tuple[int], tuple(destination))
+        for leaf in jax.tree.leaves(in_structure):
+            ndim = len(leaf.shape)
+            for name, axes in (('source', source), ('destination', destination)):
+                if len({axis + ndim if axis < 0 else axis for axis in axes}) != len(axes):
+                    raise ValueError(f'repeated axis in {name} {axes} for a leaf of shape {leaf.shape}')
         self.source = source
         self.destination = destination
         self._in_structure = in_structure
